@@ -5,3 +5,23 @@ From OA Require Import Bytes Sha256.
 Definition secret_eq (a b : bytes) : bool := bytes_eqb (sha256 a) (sha256 b).
 (* impl Hash: Sha256::digest(&self.0).hash(state) — any hasher [h] sees only the digest *)
 Definition secret_hash {H : Type} (h : bytes -> H) (a : bytes) : H := h (sha256 a).
+
+(* ---- compile-time facts about the secret newtypes (src/types.rs new_secret_type!) as a table;
+        each entry is validated by a rustc probe in the correspondence run ------------------- *)
+Inductive secret_ty :=
+| TClientSecret | TAuthorizationCode | TAccessToken | TRefreshToken | TPkceCodeVerifier
+| TCsrfToken | TResourceOwnerPassword | TDeviceCode | TUserCode | TVerificationUriComplete.
+Inductive trait_name := TrDisplay | TrDeref | TrIntoString | TrPartialEq | TrEq | TrHash | TrClone | TrDebug.
+
+Definition all_secret_tys : list secret_ty :=
+  [TClientSecret; TAuthorizationCode; TAccessToken; TRefreshToken; TPkceCodeVerifier;
+   TCsrfToken; TResourceOwnerPassword; TDeviceCode; TUserCode; TVerificationUriComplete].
+
+(* [timing] = feature timing-resistant-secret-traits *)
+Definition impls (t : secret_ty) (tr : trait_name) (timing : bool) : bool :=
+  match tr with
+  | TrDisplay | TrDeref | TrIntoString => false
+  | TrPartialEq | TrEq | TrHash => timing
+  | TrClone => match t with TPkceCodeVerifier => false | _ => true end
+  | TrDebug => true
+  end.
